@@ -402,6 +402,11 @@ def run_pool(ctx, jobs):
     only = ctx.get("only")
     if only:
         jobs = [j for j in jobs if only in j["id"]]
+    ids = [j["id"] for j in jobs]
+    if len(ids) != len(set(ids)):
+        dup = sorted({i for i in ids if ids.count(i) > 1})
+        print("PLAN-ERROR: duplicate job ids (two jobs would share one scratch directory): " + ", ".join(dup[:5]))
+        sys.exit(2)
     for j in jobs:
         j.setdefault("replay_dir", ctx["replay_dir"])
     results = []
@@ -645,8 +650,9 @@ def plan_c09(tier, seed):
         for (p, mt) in fault_targets("g3", 1):
             for fk in ("exit-mid", "missing"):
                 add("g3", 1, 1, 1, "func", p, mt, fk)
-        for (p, mt) in fault_targets("g3", 1) + fault_targets("g7", 1):
-            add("g3" if (p, mt) in fault_targets("g3", 1) else "g7", 1, 1, 2, "func", p, mt, "panic-mid")
+        for g in ("g3", "g7"):
+            for (p, mt) in fault_targets(g, 1):
+                add(g, 1, 1, 2, "func", p, mt, "panic-mid")
         for (p, mt) in fault_targets("g7", 1):
             for fk in ("exit-mid", "exit-after", "missing", "missing-last"):
                 add("g7", 1, 1, 2, "cmd", p, mt, fk)
